@@ -74,6 +74,7 @@ def run(ctx) -> None:
     ctx.rule("R5", "omitting a part (PART_ZERO_VALUES) agrees with the parser's default for its field")
     ctx.rule("R6", "tag tables: recognised tags are keys, the maps invert each other")
     ctx.rule("R7", "no integer field whose domain contains 0 is used in boolean context while reading a version")
+    ctx.rule("R8", "omission logic: only non-literal segments take part in a group's all-zero test; the reader never refuses a renderable calendar value")
 
     pats, fields, fmts = part_tables(ctx)
     vinfo = prog.klass("version.V2VersionInfo")
@@ -226,6 +227,62 @@ def run(ctx) -> None:
                     f"(e.g. parse_version_info('0', 'WW').week_w becomes today's week, so '0' does not read back)",
                     loc=f.loc(ctxnode), witness={"version": "0", "pattern": "WW"}, what=f"{fq}: no truthiness test on {name}")
         ctx.ok("R7", f"{fq}: scanned boolean contexts for fields {sorted(zero_fields)}")
+
+    # ---------------------------------------------------------------- R8
+    omission_rule(ctx, "R8")
+    from checks.c20 import _reader_range_rule
+    _reader_range_rule(ctx, prog.function("v2version.parse_field_values_to_cinfo"), {f: d for f, (d, _p) in doms.items()}, "R8")
+
+
+def omission_rule(ctx, rule: str) -> None:
+    """v2version._format_segment_tree: a group is omitted iff all its *non-literal* segments are zero."""
+    prog, cfgs = ctx.prog, ctx.cfgs
+    from sa.boolfn import BF
+    from sa.pathcond import PathCond
+    fn = prog.function("v2version._format_segment_tree")
+    ctx.visit(fn.fq)
+    g = cfgs.get(fn.fq)
+    # form (b): is_zero = all(s.is_zero for s in segs [if not s.is_literal])
+    for n in walk_no_nested(fn.node):
+        if isinstance(n, ast.Assign) and unparse(n.targets[0]) == "is_zero" and isinstance(n.value, ast.Call) and unparse(n.value.func) == "all" \
+                and n.value.args and isinstance(n.value.args[0], ast.GeneratorExp):
+            ge = n.value.args[0]
+            var = unparse(ge.generators[0].target)
+            filtered = any(unparse(c).replace(" ", "") in (f"not{var}.is_literal",) for c in ge.generators[0].ifs)
+            ctx.check(rule, filtered and unparse(ge.elt) == f"{var}.is_zero", "_format_segment_tree: all-zero test over the non-literal segments",
+                      "v2version._format_segment_tree: literal segments take part in the all-zero test (an optional group holding only literal text is never omitted)",
+                      f"`{unparse(n)}`", loc=fn.loc(n), witness={"pattern": "vMAJOR.MINOR.PATCH[-TAG.NUM]", "pep440 of a final release": "1.4.0."})
+            return
+    pc = PathCond(g)
+    upd = [n for n in g.nodes if n.kind == "stmt" and isinstance(n.ast, ast.Assign) and unparse(n.ast.targets[0]) == "is_zero" and isinstance(n.ast.value, ast.BoolOp)
+           and n.id in g.reachable()]
+    ctx.require(len(upd) == 1, "_format_segment_tree: accumulation of is_zero not recognised")
+    v = upd[0].ast.value
+    terms = sorted(unparse(x) for x in v.values)
+    seg = [t for t in terms if t.endswith(".is_zero")]
+    ctx.require(isinstance(v.op, ast.And) and "is_zero" in terms and len(seg) == 1, f"_format_segment_tree: is_zero update shape `{unparse(v)}`")
+    segvar = seg[0][:-len(".is_zero")]
+    lit = f"{segvar}.is_literal"
+    r = pc.reach(upd[0].id).drop_unused()
+    ctx.check(rule, lit in r.atoms and r.project([lit]).equiv(~BF.var(lit)), "_format_segment_tree: a segment contributes to the all-zero test iff it is not a literal",
+              "v2version._format_segment_tree: literal segments are not excluded from the all-zero test", f"is_zero updated when {r.to_dnf()}", loc=fn.loc(upd[0].ast))
+    inits = [n for n in walk_no_nested(fn.node) if isinstance(n, ast.Assign) and unparse(n.targets[0]) == "is_zero" and isinstance(n.value, ast.Constant)]
+    ctx.check(rule, len(inits) == 1 and inits[0].value.value is True, "_format_segment_tree: is_zero starts True", "v2version._format_segment_tree: is_zero initial value changed", "", loc=fn.loc())
+    res = shapes.single_def(fn, "result")
+    ok = isinstance(res, ast.IfExp) and unparse(res.test) == "is_zero" and isinstance(res.body, ast.Constant) and res.body.value == "" and "join(result_parts)" in unparse(res.orelse)
+    ctx.check(rule, ok, "_format_segment_tree: an all-zero group renders as the empty string, otherwise all its parts are joined", "v2version._format_segment_tree: omission result changed",
+              unparse(res) if res is not None else "", loc=fn.loc())
+    app = [c for c in ast.walk(fn.node) if isinstance(c, ast.Call) and unparse(c.func) == "result_parts.append"]
+    gapp = [pc.reach(g.node_containing(c)) for c in app]
+    tot = BF.false()
+    for x in gapp:
+        tot = tot | x
+    ctx.check(rule, bool(app) and tot.drop_unused().project([lit] if lit in tot.atoms else []).is_true(), "_format_segment_tree: every segment's text is kept (literal or not)",
+              "v2version._format_segment_tree: some segments are dropped from the rendering", "", loc=fn.loc())
+    fs = prog.function("v2version._format_segment")
+    src = unparse(fs.node)
+    ok = "zero_part_count > 0 and zero_part_count == len(used_parts)" in src and "len(used_parts) == 0" in src
+    ctx.check(rule, ok, "_format_segment: literal iff no part; zero iff every used part renders its zero value", "v2version._format_segment: classification of literal/zero segments changed", "", loc=fs.loc())
 
 
 def _parse_defaults(ctx, pv) -> T.Dict[str, T.Any]:
